@@ -12,6 +12,7 @@ def rules_for(prog, res):
     c09.run_c(prog, res)
     c09.run_d(prog, res)
     c09.run_e(prog, res)
+    c09.run_f(prog, res)
 
 
 def run(res, tier, replay=None):
@@ -24,7 +25,7 @@ def run(res, tier, replay=None):
         "visit every sub-AST field of the node types they dispatch on; (b) kind-set dataflow: the literal replacing a folded "
         "application is built only where the fold result cannot be an exception, and the fold uses sexp_apply_no_err_handler, which clears every handler source it saves (thread parameters, global handler cell) before applying; "
         "(c) the push onto the substitution list is dominated by the `not assigned` (memq name sv == #f) edge; (d) taint: neither a value unwrapped from a literal node nor a result of the unchecked fixnum macros reaches "
-        "an AST slot or the returned AST - the simplifier folds through the VM only and keeps quoted data wrapped. (e) where simplify / the code generator / analyze ask whether a variable is assigned, the name is paired with the set-variable list of the lambda that binds it (a reference's own location, the lambda whose parameter list the name was taken from). Not decided: "
+        "an AST slot or the returned AST - the simplifier folds through the VM only and keeps quoted data wrapped. (e) where simplify / the code generator / analyze ask whether a variable is assigned, the name is paired with the set-variable list of the lambda that binds it (a reference's own location, the lambda whose parameter list the name was taken from). (f) where simplify decides a branch from a constant test, the variable that may hold a literal node is compared with #f itself only where the literal case is excluded (a Lit node wraps the value and is never #f). Not decided: "
         "equality of results across builds as such; the portable 128-bit arithmetic (numerical).")
     if tier == "thorough":
         common.thorough_mutations(res, "C09", {
@@ -35,4 +36,5 @@ def run(res, tier, replay=None):
             "C09.c": lambda p, r: c09.run_c(p, r),
             "C09.d": lambda p, r: c09.run_d(p, r, floor=0),
             "C09.e": lambda p, r: c09.run_e(p, r, floor=0),
+            "C09.f": lambda p, r: c09.run_f(p, r, floor=0),
         })
